@@ -13,7 +13,7 @@ pub fn defs() -> Vec<ScenarioDef> {
         mk("api-instances", "C28", plan_c28, check_c28, "the history contains at least one error outcome predicted by the model (unknown instance, keyless type or not-enabled writer) and at least one successful register/lookup pair", 2500),
         mk("api-handles", "C35", plan_c35, check_c35, "at least 20 entities were created and at least one was deleted and re-created, or more than 256 entities of one kind were created in one participant", 1200),
         mk("api-deletion", "C36", plan_c36, check_c36, "at least one deletion was refused by the model (non-empty parent, topic in use, wrong parent) or an operation was issued on a deleted entity", 2500),
-        mk("api-qos", "C37", plan_c37, check_c37, "at least one inconsistent or immutable QoS request and one accepted QoS change were issued", 2500),
+        mk("api-qos", "C37", plan_c37, check_c37, "at least one inconsistent or immutable QoS request and one accepted QoS change were issued (the endpoint announcements sent to a second participant are compared with get_qos at the end)", 1200),
     ]
 }
 
@@ -883,6 +883,11 @@ fn plan_c37(seed: u64, tier: &str) -> Plan {
         Op::CreatePublisher { p: 0, id: 0, q: Q::default(), l: None },
         Op::CreateSubscriber { p: 0, id: 0, q: Q::default(), l: None },
     ];
+    // a second participant, so that endpoint announcements are really sent (and can be inspected on the wire)
+    let mut setup = setup;
+    setup.push(Op::CreateParticipant { p: 1, domain: 0, tag: String::new(), announce_ms: 500, q: Q::default(), l: None });
+    setup.push(Op::Sleep { us: 1_500_000 });
+    plan.net.capture = true;
     plan.phases.push(phase("setup", true, vec![script(setup)]));
     let n_clients = r.usize(1, 2);
     let mut clients: Vec<Vec<Op>> = vec![vec![]; n_clients];
@@ -931,7 +936,8 @@ fn plan_c37(seed: u64, tier: &str) -> Plan {
         }
     }
     plan.phases.push(phase("calls", false, clients.into_iter().map(script).collect()));
-    let mut fin = vec![];
+    // (time for the announcements of the last accepted changes to leave)
+    let mut fin = vec![Op::Sleep { us: 1_000_000 }];
     for (k, id, _) in &ents {
         fin.push(Op::GetQos { kind: k.to_string(), id: *id });
     }
@@ -963,5 +969,39 @@ fn check_c37(_plan: &Plan, out: &Outcome) -> Verdict {
         v.probe("accepted_changes", accepted as u64);
         v.nontrivial = rejected > 0 && accepted > 0;
     });
+    if !v.violations.is_empty() {
+        return v;
+    }
+    // "... and announced to remote participants": the last endpoint announcement (SEDP DATA) sent for every
+    // entity carries the deadline and user data that get_qos returns at the end
+    let node0 = out.world.node_of(0);
+    let mut ents: Vec<(&str, u32, [u8; 16])> = out.world.st.borrow().writers.iter().map(|(id, w)| ("writer", *id, w.handle)).collect();
+    ents.extend(out.world.st.borrow().readers.iter().map(|(id, r)| ("reader", *id, r.handle)));
+    let finals: BTreeMap<(String, u32), Q> = with_hist(|h| h.recs.iter().filter(|r| r.phase == 2).filter_map(|r| if let (Op::GetQos { kind, id }, Res::Qos(Ok(q))) = (&r.op, &r.res) { Some(((kind.clone(), *id), q.clone())) } else { None }).collect());
+    let announced: Vec<(u32, Vec<(u16, Vec<u8>)>)> = crate::net::with_net(|n| n.wire.iter().filter(|w| w.src.is_some() && w.src == node0 && w.class & crate::wire::C_SEDP != 0).filter_map(|w| w.bytes.clone()).flat_map(|b| crate::wire::discovery_parameters(&b)).collect());
+    for (kind, id, handle) in ents {
+        let Some(q) = finals.get(&(kind.to_string(), id)) else { continue };
+        let sedp_writer = if kind == "writer" { 0x0000_03c2u32 } else { 0x0000_04c2 };
+        let last = announced.iter().rev().find(|(w, ps)| *w == sedp_writer && ps.iter().any(|(pid, val)| *pid == 0x005a && val.len() >= 16 && val[..16] == handle));
+        let Some((_, ps)) = last else {
+            v.violate("C37", "C37.not-announced", format!("C37.not-announced {kind}"), format!("{kind} {id} was created but no endpoint announcement for it was sent to the discovered participant"));
+            continue;
+        };
+        v.probe("announcements_checked", 1);
+        let ud: Vec<u8> = ps.iter().find(|(pid, _)| *pid == 0x002c).map(|(_, val)| if val.len() >= 4 { let n = u32::from_le_bytes([val[0], val[1], val[2], val[3]]) as usize; val[4..(4 + n).min(val.len())].to_vec() } else { vec![] }).unwrap_or_default();
+        if ud != q.user_data {
+            v.violate("C37", "C37.announced-qos-differs", format!("C37.announced-qos-differs {kind} user_data"), format!("{kind} {id}: get_qos returns user_data {:?} but the last announcement sent carries {:?}", q.user_data, ud));
+        }
+        let dl = ps.iter().find(|(pid, _)| *pid == 0x0023).map(|(_, val)| if val.len() >= 8 { (i32::from_le_bytes([val[0], val[1], val[2], val[3]]), u32::from_le_bytes([val[4], val[5], val[6], val[7]])) } else { (0, 0) });
+        let want = q.deadline_ns.map(|ns| ((ns / 1_000_000_000) as i32, ns % 1_000_000_000 != 0));
+        let got = match dl {
+            None => None,
+            Some((s, _)) if s == i32::MAX => None,
+            Some((s, f)) => Some((s, f != 0)),
+        };
+        if want != got {
+            v.violate("C37", "C37.announced-qos-differs", format!("C37.announced-qos-differs {kind} deadline"), format!("{kind} {id}: get_qos returns deadline {:?} ns but the last announcement sent carries {:?} (seconds, fraction)", q.deadline_ns, dl));
+        }
+    }
     v
 }
